@@ -113,6 +113,8 @@ impl OligoComputer {
 
                 // Define a closure to handle buffer processing
                 let mut process_buffer = |buffer: &Vec<Sequence>| {
+                    #[cfg(feature = "verif_hooks")]
+                    ktio::verif::emit("oligo.batch_flush", &[buffer.len() as u64]);
                     let result = buffer
                         .par_iter()
                         .map(|seq| {
@@ -169,6 +171,15 @@ impl OligoComputer {
             header = self.get_header().join(&self.delim) + "\n";
             estimated_file_size += header.len();
         }
+        #[cfg(feature = "verif_hooks")]
+        ktio::verif::emit(
+            "oligo.mmap_plan",
+            &[
+                per_line_size as u64,
+                header.len() as u64,
+                estimated_file_size as u64,
+            ],
+        );
         // memmap
         let mut mmap = ktio::mmap::mmap_file_for_writing(&self.out_path, estimated_file_size)?;
         // get reader
@@ -192,9 +203,15 @@ impl OligoComputer {
                 let records_arc_clone = Arc::clone(&records_arc);
                 let header_len = header.len();
                 scope.spawn(move |_| {
+                    #[cfg(feature = "verif_hooks")]
+                    ktio::verif::emit("oligo.worker_start", &[]);
                     loop {
+                        #[cfg(feature = "verif_hooks")]
+                        ktio::verif::emit("oligo.before_take", &[]);
                         let record = { records_arc_clone.lock().unwrap().next() };
                         if let Some(record) = record {
+                            #[cfg(feature = "verif_hooks")]
+                            ktio::verif::emit("oligo.after_take", &[record.n as u64]);
                             let kvec = self.vectorise_one(&record.seq);
                             // optimise this with pre-sized string
                             let kvec_str: Vec<String> = kvec
@@ -203,11 +220,24 @@ impl OligoComputer {
                                 .collect();
                             let kvec_str = format!("{}\n", kvec_str.join(&self.delim));
                             let start_pos = kvec_str.len() * record.n;
+                            #[cfg(feature = "verif_hooks")]
+                            ktio::verif::emit(
+                                "oligo.before_write",
+                                &[
+                                    record.n as u64,
+                                    (start_pos + header_len) as u64,
+                                    kvec_str.len() as u64,
+                                ],
+                            );
                             unsafe {
                                 mm_slice.write_at(kvec_str.as_bytes(), start_pos + header_len);
                             }
+                            #[cfg(feature = "verif_hooks")]
+                            ktio::verif::emit("oligo.after_write", &[record.n as u64]);
                         } else {
                             // end of iteration
+                            #[cfg(feature = "verif_hooks")]
+                            ktio::verif::emit("oligo.worker_exit", &[]);
                             break;
                         }
                     }
@@ -221,9 +251,19 @@ impl OligoComputer {
     fn vectorise_one(&self, seq: &[u8]) -> Vec<f64> {
         let mut vec = vec![0_f64; self.kcount];
         let mut total = 0_f64;
+        #[cfg(feature = "verif_hooks")]
+        let mut verif_idx = [0_u64; 3];
 
         for (fmer, rmer) in KmerGenerator::new(seq, self.ksize) {
             let min_mer = u64::min(fmer, rmer);
+            #[cfg(feature = "verif_hooks")]
+            {
+                verif_idx[0] = verif_idx[0].max(min_mer + 1);
+                if let Some(&p) = self.pos_map.get(min_mer as usize) {
+                    verif_idx[1] = verif_idx[1].max(p as u64 + 1);
+                }
+                verif_idx[2] += 1;
+            }
             unsafe {
                 // we already know the size of the vector and
                 // min_mer is absolutely smaller than that
@@ -232,10 +272,41 @@ impl OligoComputer {
                 total += 1_f64;
             }
         }
+        #[cfg(feature = "verif_hooks")]
+        ktio::verif::emit(
+            "oligo.idx",
+            &[
+                verif_idx[0],
+                self.pos_map.len() as u64,
+                verif_idx[1],
+                vec.len() as u64,
+                verif_idx[2],
+            ],
+        );
         if self.norm {
             vec.iter_mut().for_each(|el| *el /= f64::max(1_f64, total));
         }
         vec
+    }
+}
+
+/// public wrappers around private entry points, for the verification harness only
+#[cfg(feature = "verif_hooks")]
+impl OligoComputer {
+    pub fn verif_vectorise_mmap(&self) -> Result<(), String> {
+        self.vectorise_mmap()
+    }
+
+    pub fn verif_vectorise_batch(&self) -> Result<(), String> {
+        self.vectorise_batch()
+    }
+
+    pub fn verif_vectorise_one(&self, seq: &[u8]) -> Vec<f64> {
+        self.vectorise_one(seq)
+    }
+
+    pub fn verif_get_header(&self) -> Vec<String> {
+        self.get_header()
     }
 }
 
